@@ -524,7 +524,23 @@ func genClientServices(t *rapid.T, ids []string) ([]docdid.Service, []interface{
 	for _, id := range ids {
 		uri := rapid.SampledFrom(goodURIs[:4]).Draw(t, "svcURI")
 		typ := rapid.SampledFrom([]string{"LinkedDomains", "DIDCommMessaging"}).Draw(t, "svcType")
-		switch rapid.IntRange(0, 2).Draw(t, "endpointKind") {
+		switch rapid.IntRange(0, 3).Draw(t, "endpointKind") {
+		case 3:
+			// every optional member of a service, with lists of one and of two entries
+			list := func(l string, vals ...string) ([]string, []interface{}) {
+				n := rapid.IntRange(1, len(vals)).Draw(t, l)
+				var w []interface{}
+				for _, v := range vals[:n] {
+					w = append(w, v)
+				}
+				return vals[:n], w
+			}
+			rk, wrk := list("nRouting", "did:example:r#k1", "did:example:r#k2")
+			ac, wac := list("nAccept", "didcomm/v2", "didcomm/aip2;env=rfc587")
+			rc, wrc := list("nRecipient", "did:example:1#k", "did:example:2#k")
+			prio := uint(rapid.IntRange(1, 3).Draw(t, "priority"))
+			svcs = append(svcs, docdid.Service{ID: id, Type: typ, ServiceEndpoint: endpoint.NewDIDCommV1Endpoint(uri), Priority: prio, RecipientKeys: rc, RoutingKeys: rk, Accept: ac})
+			want = append(want, map[string]interface{}{"id": id, "type": typ, "serviceEndpoint": uri, "priority": float64(prio), "recipientKeys": wrc, "routingKeys": wrk, "accept": wac})
 		case 0:
 			svcs = append(svcs, docdid.Service{ID: id, Type: typ, ServiceEndpoint: endpoint.NewDIDCommV1Endpoint(uri)})
 			want = append(want, map[string]interface{}{"id": id, "type": typ, "serviceEndpoint": uri})
